@@ -635,6 +635,13 @@ class ScalarType(GraphQLLeafType, NamedType):
                     return self._parse_literal(node, variables or {})
                 return self.parse(node.value)
             except AttributeError:
+                if not hasattr(node, "value"):
+                    # List and object literals have no scalar value to hand
+                    # to `parse`, a scalar accepting them needs to provide
+                    # its own `parse_literal`.
+                    raise TypeError(
+                        "Invalid literal %s" % type(node).__name__
+                    )
                 return self.parse(node.value)
         except (ValueError, TypeError) as err:
             raise ScalarParsingError(str(err), [node]) from err
